@@ -98,6 +98,22 @@ def merge (a b : ZVec) : ZVec :=
 def dropVec (v : ZVec) (bomb : Option Nat) (unwinding : Bool) : ZVec × Bool :=
   dropN { v with len := 0 } v.len bomb unwinding
 
+/-- `extend_from_within_clone(range)`, `T::IS_ZST` branch (`mut_bump_vec_rev.rs` l.1785-1797; the other vectors
+    have the same text): a prototype value is materialised from nothing INSIDE `ManuallyDrop` — it is not a value
+    of the vector and is never dropped —, then `count` clones of it are pushed one by one (`push_unchecked(
+    (*fake).clone())`).  `panicAt = some k`: the `k`-th call of `Clone::clone` (0-based) panics.
+    Result: the vector, the number of clones MADE, and whether it unwound. -/
+def extendWithinClone (v : ZVec) (count : Nat) (panicAt : Option Nat) : ZVec × Nat × Bool :=
+  match panicAt with
+  | some k => if k < count then ({ v with len := v.len + k }, k, true) else ({ v with len := v.len + count }, count, false)
+  | none => ({ v with len := v.len + count }, count, false)
+
+/-- the same WITHOUT the `ManuallyDrop` (prototype as a plain local, `mem::forget` only on the success path): the
+    unwind of a panicking `clone` drops the prototype — a destructor call for a value that was never made -/
+def extendWithinCloneUnguarded (v : ZVec) (count : Nat) (panicAt : Option Nat) : ZVec × Nat × Bool :=
+  let r := extendWithinClone v count panicAt
+  if r.2.2 then ({ r.1 with drops := r.1.drops + 1 }, r.2.1, true) else r
+
 /-- everything the state accounts for: still owned + destructor calls + handed out -/
 def ZVec.total (v : ZVec) : Nat := v.len + v.drops + v.escaped
 
